@@ -172,6 +172,98 @@ Proof.
   - apply IH; [lia | now inversion Hf].
 Qed.
 
+
+(* ------------------------------------------------------------------ code points *)
+Lemma is_boundary_cons : forall x t k, is_boundary (x :: t) (S k) = is_boundary t k.
+Proof. intros. unfold is_boundary. cbn [nth_error length]. reflexivity. Qed.
+
+Lemma ob2c_nth : forall t cnt b, is_boundary t b = true ->
+  nth_error (ob2c_scan t cnt ++ [Some (cnt + count_leads t)]) b = Some (Some (cnt + count_leads (firstn b t))).
+Proof.
+  induction t as [|x t IH]; intros cnt b Hb.
+  - unfold is_boundary in Hb. destruct b; cbn in Hb; [reflexivity | discriminate].
+  - destruct b as [|b].
+    + unfold is_boundary in Hb. cbn [nth_error] in Hb. cbn [ob2c_scan firstn count_leads]. rewrite Hb. cbn [app nth_error].
+      now rewrite Nat.add_0_r.
+    + rewrite is_boundary_cons in Hb. cbn [ob2c_scan firstn count_leads]. destruct (is_lead x).
+      * cbn [app nth_error]. replace (cnt + S (count_leads t)) with (S cnt + count_leads t) by lia.
+        rewrite IH by auto. f_equal. f_equal. lia.
+      * cbn [app nth_error]. now rewrite IH.
+Qed.
+
+Lemma c2b_nth_count : forall t i x, is_boundary t x = true ->
+  nth (count_leads (firstn x t)) (c2b_scan t i ++ [i + length t]) 0 = i + x.
+Proof.
+  induction t as [|b t IH]; intros i x Hx.
+  - unfold is_boundary in Hx. destruct x; cbn in Hx; [cbn; lia | discriminate].
+  - destruct x as [|x].
+    + unfold is_boundary in Hx. cbn [nth_error] in Hx. cbn [firstn count_leads c2b_scan]. rewrite Hx. cbn [app nth]. lia.
+    + rewrite is_boundary_cons in Hx. cbn [firstn count_leads c2b_scan length].
+      replace (i + S (length t)) with (S i + length t) by lia.
+      destruct (is_lead b); cbn [app nth]; rewrite IH by auto; lia.
+Qed.
+
+Lemma c2b_boundary : forall t i ci p, nth_error (c2b_scan t i ++ [i + length t]) ci = Some p ->
+  i <= p /\ is_boundary t (p - i) = true.
+Proof.
+  induction t as [|x t IH]; intros i ci p H.
+  - cbn [c2b_scan app length] in H. destruct ci as [|ci]; cbn in H; [|destruct ci; discriminate].
+    inversion H; subst. split; [lia|]. replace (i + 0 - i) with 0 by lia. reflexivity.
+  - cbn [c2b_scan length] in H. replace (i + S (length t)) with (S i + length t) in H by lia.
+    destruct (is_lead x) eqn:El.
+    + destruct ci as [|ci]; cbn [app nth_error] in H.
+      * inversion H; subst. split; [lia|]. replace (p - p) with 0 by lia. unfold is_boundary. cbn [nth_error]. exact El.
+      * destruct (IH _ _ _ H) as [H1 H2]. split; [lia|]. replace (p - i) with (S (p - S i)) by lia. now rewrite is_boundary_cons.
+    + destruct (IH _ _ _ H) as [H1 H2]. split; [lia|]. replace (p - i) with (S (p - S i)) by lia. now rewrite is_boundary_cons.
+Qed.
+
+Lemma cp_slice_byte_slice : forall o x y, is_boundary o x = true -> is_boundary o y = true ->
+  cp_slice o (codepoints_before o x) (codepoints_before o y) = byte_slice o (x, y).
+Proof.
+  intros o x y Hx Hy. unfold cp_slice, codepoints_before.
+  pose proof (c2b_nth_count o 0 x Hx) as E1. pose proof (c2b_nth_count o 0 y Hy) as E2.
+  cbn [plus] in E1, E2. rewrite E1, E2. reflexivity.
+Qed.
+
+(* ------------------------------------------------------------------ chains of ranges (C01) *)
+Lemma firstn_app_skipn {A} : forall a b (l : list A), firstn a l ++ firstn b (skipn a l) = firstn (a + b) l.
+Proof.
+  induction a as [|a IH]; intros b l; [reflexivity|].
+  destruct l as [|x l]; cbn [firstn skipn plus app]; [now rewrite firstn_nil | now rewrite IH].
+Qed.
+
+Lemma chain_le : forall p from n, chain_b from n p = true -> from <= n.
+Proof.
+  induction p as [|[b e] r IH]; intros from n H; cbn [chain_b] in H.
+  - apply Nat.eqb_eq in H. lia.
+  - repeat rewrite andb_true_iff in H. destruct H as [[H1 H2] H3].
+    apply Nat.eqb_eq in H1. apply Nat.leb_le in H2. apply IH in H3. lia.
+Qed.
+
+Lemma chain_concat : forall o p from n, chain_b from n p = true ->
+  concat (map (byte_slice o) p) = firstn (n - from) (skipn from o).
+Proof.
+  intros o. induction p as [|[b e] r IH]; intros from n H; cbn [chain_b] in H.
+  - apply Nat.eqb_eq in H. subst. now rewrite Nat.sub_diag.
+  - repeat rewrite andb_true_iff in H. destruct H as [[H1 H2] H3].
+    apply Nat.eqb_eq in H1. apply Nat.leb_le in H2. subst b. pose proof (chain_le _ _ _ H3) as Hle.
+    cbn [map concat]. rewrite (IH _ _ H3). unfold byte_slice. cbn [fst snd].
+    replace (skipn e o) with (skipn (e - from) (skipn from o)) by (rewrite skipn_skipn'; f_equal; lia).
+    rewrite firstn_app_skipn. f_equal. lia.
+Qed.
+
+Lemma chain_map : forall (m : list nat) p from n,
+  (forall i j, i <= j -> j <= n -> nth i m 0 <= nth j m 0) ->
+  chain_b from n p = true -> chain_b (nth from m 0) (nth n m 0) (map (map_range m) p) = true.
+Proof.
+  intros m. induction p as [|[b e] r IH]; intros from n Hm H; cbn [chain_b map] in *.
+  - apply Nat.eqb_eq in H. subst. apply Nat.eqb_refl.
+  - repeat rewrite andb_true_iff in H. destruct H as [[H1 H2] H3].
+    apply Nat.eqb_eq in H1. apply Nat.leb_le in H2. subst b. pose proof (chain_le _ _ _ H3) as Hle.
+    unfold map_range at 1. cbn [fst snd]. rewrite Nat.eqb_refl. cbn [andb].
+    rewrite (IH _ _ Hm H3). rewrite andb_true_r. apply Nat.leb_le. apply Hm; lia.
+Qed.
+
 (* ------------------------------------------------------------------ resolve under a good configuration *)
 Section Cfg.
 Variable cfg : bcfg.
@@ -296,6 +388,190 @@ Proof.
         { cbn [SortedFrom]. split; [auto|]. apply sf_repeat. auto. }
         { apply (sf_weaken _ xe); [|auto]. rewrite last_cons', last_repeat. destruct (length (b0 :: w0) - 1); lia. }
       * rewrite <- Hlast. rewrite app_assoc. apply last_app_ne. auto.
+Qed.
+
+(* ------------------------------------------------------------------ the invariant *)
+Definition Inv (o : list N) (s : buf) : Prop :=
+  orig s = o /\ BMap o (cur s) (m2o s) /\ SortedFrom 0 (m2o s) /\ hd 0 (m2o s) = 0 /\
+  last (m2o s) 0 = length o /\ wf_text (cur s) = true /\ wf_text o = true.
+
+Lemma seq_BMap : forall o t a, is_boundary o (a + length t) = true ->
+  (forall i, i < length t -> nth_error o (a + i) = nth_error t i) ->
+  BMap o t (seq a (length t + 1)).
+Proof.
+  intros o t. induction t as [|b t IH]; intros a Hend Hnth; cbn [length plus seq].
+  - constructor. now rewrite Nat.add_0_r in Hend.
+  - constructor.
+    + intros Hl. unfold is_boundary. specialize (Hnth 0). rewrite Nat.add_0_r in Hnth. rewrite Hnth by (cbn; lia). exact Hl.
+    + apply IH.
+      * cbn [length] in Hend. now replace (S a + length t) with (a + S (length t)) by lia.
+      * intros i Hi. specialize (Hnth (S i)). cbn [length nth_error] in Hnth. replace (S a + i) with (a + S i) by lia. apply Hnth. lia.
+Qed.
+
+Lemma seq_sorted : forall n a lo, lo <= a -> SortedFrom lo (seq a n).
+Proof. induction n as [|n IH]; intros a lo H; cbn [seq SortedFrom]; [auto|]. split; [auto|]. apply IH. lia. Qed.
+
+Lemma inv_start : forall o s, wf_text o = true -> start_build cfg o = Ok s -> Inv o s.
+Proof.
+  intros o s Hwf H. destruct cfg_fields as (Hf & He & _). unfold start_build in H. rewrite Hf, He in H.
+  destruct (cmp_eval _ _ _); [discriminate|]. inversion H; subst; clear H.
+  replace (length o + 1 - 0) with (length o + 1) by lia.
+  unfold Inv; cbn [orig cur m2o]. repeat split; auto.
+  - apply seq_BMap; [apply is_boundary_len | auto].
+  - apply seq_sorted. lia.
+  - rewrite Nat.add_1_r. reflexivity.
+  - rewrite Nat.add_1_r. rewrite seq_S. rewrite last_last. lia.
+Qed.
+
+Lemma commit_inv : forall o s es s',
+  Inv o s -> edits_ok (cur s) es = true -> commit cfg s es = Ok s' -> cur s' <> [] -> Inv o s'.
+Proof.
+  intros o s es s' (Ho & HB & HS & Hhd & Hlast & Hwf & Hwo) Hok Hc Hne.
+  destruct cfg_fields as (_ & _ & Hff & _).
+  unfold commit in Hc. destruct es as [|e es]; [inversion Hc; subst; repeat split; auto|].
+  destruct (resolve cfg (cur s) (m2o s) (e :: es) 0 (Z.of_nat (length (cur s)))) as [t m l| |] eqn:Er; try discriminate.
+  2:{ destruct (cmp_eval _ _ _); discriminate. }
+  destruct (cmp_eval _ _ _); [discriminate|]. inversion Hc; subst s'; clear Hc. cbn [cur] in Hne.
+  destruct (resolve_ok o (cur s) (m2o s) 0 (e :: es) 0 (Z.of_nat (length (cur s))) t m l) as (HBt & HSt & Hl & Hwt);
+    [ apply (BMap_length o); assumption | lia | apply is_boundary_0; assumption | exact Hok | exact HB | exact HS | exact Er | ].
+  pose proof (BMap_length _ _ _ HBt) as Hlen.
+    unfold Inv; cbn [orig cur m2o]. unfold force_first. rewrite Hff.
+    destruct m as [|x m]; [cbn in Hlen; lia|].
+    assert (m <> []) as Hmne. { intros ->. cbn in Hlen. destruct t; [contradiction | cbn in Hlen; lia]. }
+    split; [exact Ho|]. split; [|split; [|split; [reflexivity|split; [|split; [exact Hwt | exact Hwo]]]]].
+    + inversion HBt; subst.
+      * contradiction.
+      * constructor; auto. intros _. now apply is_boundary_0.
+    + destruct HSt as [Hx HSt]. split; [lia|]. apply (sf_weaken _ x); [lia|auto].
+    + rewrite <- Hlast, <- Hl. rewrite !last_cons'. destruct m as [|y m]; [contradiction|]. now rewrite !last_cons'.
+Qed.
+
+(* every state reachable from start_build by well-formed batches that leave the text non-empty *)
+Inductive Reach (o : list N) : buf -> Prop :=
+| R_start s : start_build cfg o = Ok s -> Reach o s
+| R_commit s es s' : Reach o s -> edits_ok (cur s) es = true -> commit cfg s es = Ok s' -> cur s' <> [] -> Reach o s'.
+
+Lemma reach_inv : forall o s, wf_text o = true -> Reach o s -> Inv o s.
+Proof. intros o s Hwf H. induction H; [now apply inv_start | eapply commit_inv; eauto]. Qed.
+
+(* the invariant in terms of positions *)
+Definition InvPos (o : list N) (s : buf) : Prop :=
+  orig s = o /\
+  length (m2o s) = length (cur s) + 1 /\
+  nth 0 (m2o s) 0 = 0 /\
+  nth (length (cur s)) (m2o s) 0 = length o /\
+  (forall i j, i <= j -> j <= length (cur s) -> nth i (m2o s) 0 <= nth j (m2o s) 0) /\
+  (forall p, is_boundary (cur s) p = true -> is_boundary o (nth p (m2o s) 0) = true).
+
+Lemma inv_pos : forall o s, Inv o s -> InvPos o s.
+Proof.
+  intros o s (Ho & HB & HS & Hhd & Hlast & Hwf & Hwo).
+  pose proof (BMap_length _ _ _ HB) as Hlen.
+  unfold InvPos. repeat split; auto.
+  - destruct (m2o s); [cbn in Hlen; lia | exact Hhd].
+  - rewrite <- Hlast. rewrite <- (firstn_skipn (length (cur s)) (m2o s)) at 2.
+    assert (skipn (length (cur s)) (m2o s) = [nth (length (cur s)) (m2o s) 0]) as E.
+    { rewrite (skipn_cons_nth _ _ 0) by lia. f_equal. apply skipn_all2. lia. }
+    rewrite E. now rewrite last_last.
+  - intros i j Hij Hj. apply (sf_nth_mono _ 0); auto. lia.
+  - apply BMap_nth_boundary. exact HB.
+Qed.
+
+Theorem inv_all_batches : forall o s, wf_text o = true -> Reach o s -> InvPos o s.
+Proof. intros. apply inv_pos. now apply reach_inv. Qed.
+
+(* ------------------------------------------------------------------ code-point offsets under the invariant *)
+Lemma orig_b2c_eq : forall t, orig_b2c cfg t = ob2c_scan t 0 ++ [Some (0 + count_leads t)].
+Proof.
+  intros t. destruct cfg_fields as (_ & _ & _ & _ & _ & _ & _ & Hi & Hc). unfold orig_b2c. rewrite Hi, Hc.
+  do 3 f_equal. destruct (count_leads t); lia.
+Qed.
+
+Lemma orig_b2c_counts_codepoints : forall o b, is_boundary o b = true ->
+  nth_error (orig_b2c cfg o) b = Some (Some (codepoints_before o b)).
+Proof. intros o b Hb. rewrite orig_b2c_eq. rewrite ob2c_nth by auto. reflexivity. Qed.
+
+Lemma to_orig_byte_idx_boundary : forall o s ci b, Inv o s -> to_orig_byte_idx s ci = Some b -> is_boundary o b = true.
+Proof.
+  intros o s ci b (Ho & HB & _) H. unfold to_orig_byte_idx, mod_c2b in H.
+  destruct (nth_error (c2b_scan (cur s) 0 ++ [length (cur s)]) ci) as [p|] eqn:E; [|discriminate].
+  destruct (c2b_boundary (cur s) 0 ci p E) as [_ Hp]. rewrite Nat.sub_0_r in Hp.
+  apply (nth_error_nth _ _ 0) in H. subst b. now apply (BMap_nth_boundary o _ _ HB).
+Qed.
+
+Lemma begin_c_eq : forall o s ci b, Inv o s -> to_orig_byte_idx s ci = Some b ->
+  to_orig_char_idx cfg s ci = Some (codepoints_before o b).
+Proof.
+  intros o s ci b HI H. pose proof (to_orig_byte_idx_boundary _ _ _ _ HI H) as Hb.
+  unfold to_orig_char_idx. rewrite H. destruct HI as (Ho & _). rewrite Ho.
+  now rewrite orig_b2c_counts_codepoints.
+Qed.
+
+Lemma char_slice_eq_byte_slice : forall o s ci cj bi bj, Inv o s ->
+  to_orig_byte_idx s ci = Some bi -> to_orig_byte_idx s cj = Some bj ->
+  exists ai aj, to_orig_char_idx cfg s ci = Some ai /\ to_orig_char_idx cfg s cj = Some aj /\
+                cp_slice o ai aj = byte_slice o (bi, bj).
+Proof.
+  intros o s ci cj bi bj HI Hi Hj. exists (codepoints_before o bi), (codepoints_before o bj).
+  split; [now apply begin_c_eq|]. split; [now apply begin_c_eq|].
+  apply cp_slice_byte_slice; eapply to_orig_byte_idx_boundary; eauto.
+Qed.
+
+(* ------------------------------------------------------------------ surfaces (C01) *)
+Lemma orig_slice_spec : forall o s a b, Inv o s -> is_boundary (cur s) a = true -> is_boundary (cur s) b = true -> a <= b ->
+  orig_slice s a b = Some (byte_slice o (map_range (m2o s) (a, b))).
+Proof.
+  intros o s a b HI Ha Hb Hab. destruct (inv_pos _ _ HI) as (Ho & Hlen & _ & _ & Hmono & Hbnd).
+  pose proof (is_boundary_le _ _ Ha) as La. pose proof (is_boundary_le _ _ Hb) as Lb.
+  unfold orig_slice, to_orig. rewrite Ha, Hb. cbn [andb].
+  rewrite (nth_error_nth' (m2o s) 0) by lia. rewrite (nth_error_nth' (m2o s) 0) by lia.
+  unfold str_slice. rewrite Ho. rewrite (Hbnd _ Ha), (Hbnd _ Hb).
+  assert (E1 : (nth a (m2o s) 0 <=? nth b (m2o s) 0) = true) by (apply Nat.leb_le; apply Hmono; lia).
+  assert (E2 : (nth b (m2o s) 0 <=? length o) = true) by (apply Nat.leb_le; apply is_boundary_le; apply Hbnd; exact Hb).
+  rewrite E1, E2. reflexivity.
+Qed.
+
+Lemma begin_char_eq_byte : forall s ci bb, nth_error (mod_c2b (cur s)) ci = Some bb ->
+  to_orig_byte_idx s ci = nth_error (m2o s) bb.
+Proof. intros s ci bb H. unfold to_orig_byte_idx. now rewrite H. Qed.
+
+Theorem surfaces_partition : forall o s p, Inv o s -> path_ok_b (cur s) p = true ->
+  partition_b o (map (map_range (m2o s)) p) = true.
+Proof.
+  intros o s p HI Hp. destruct (inv_pos _ _ HI) as (Ho & Hlen & H0 & Hend & Hmono & Hbnd).
+  unfold path_ok_b in Hp. apply andb_true_iff in Hp. destruct Hp as [Hc Hf].
+  unfold partition_b. apply andb_true_iff. split.
+  - rewrite <- H0, <- Hend. apply chain_map; auto.
+  - rewrite forallb_forall in *. intros r Hr. apply in_map_iff in Hr. destruct Hr as ([a b] & <- & Hin).
+    specialize (Hf _ Hin). cbn [fst snd] in Hf. apply andb_true_iff in Hf. destruct Hf as [Ha Hb].
+    unfold map_range. cbn [fst snd]. now rewrite (Hbnd _ Ha), (Hbnd _ Hb).
+Qed.
+
+Theorem concat_surfaces_eq_input : forall o s p, Inv o s -> path_ok_b (cur s) p = true ->
+  concat (map (byte_slice o) (map (map_range (m2o s)) p)) = o.
+Proof.
+  intros o s p HI Hp. pose proof (surfaces_partition _ _ _ HI Hp) as H. unfold partition_b in H.
+  apply andb_true_iff in H. destruct H as [Hc _]. rewrite (chain_concat _ _ _ _ Hc).
+  rewrite Nat.sub_0_r. cbn [skipn]. now apply firstn_all.
+Qed.
+
+(* every surface reported through orig_slice is the corresponding slice of the original *)
+Theorem surfaces_are_slices : forall o s p, Inv o s -> path_ok_b (cur s) p = true ->
+  forall r, In r p -> orig_slice s (fst r) (snd r) = Some (byte_slice o (map_range (m2o s) r)).
+Proof.
+  intros o s p HI Hp [a b] Hin. unfold path_ok_b in Hp. apply andb_true_iff in Hp. destruct Hp as [Hc Hf].
+  rewrite forallb_forall in Hf. specialize (Hf _ Hin). cbn [fst snd] in *. apply andb_true_iff in Hf. destruct Hf as [Ha Hb].
+  apply orig_slice_spec; auto.
+  clear - Hc Hin. revert Hc Hin. generalize 0 as from. induction p as [|[b' e'] r IH]; intros from Hc Hin; [contradiction|].
+  cbn [chain_b] in Hc. repeat rewrite andb_true_iff in Hc. destruct Hc as [[H1 H2] H3].
+  destruct Hin as [E|Hin]; [inversion E; subst; now apply Nat.leb_le | eapply IH; eauto].
+Qed.
+
+(* a non-empty text cannot be covered by the empty path; an empty one is only covered by empty ranges *)
+Lemma empty_path_iff_empty_text : forall c, path_ok_b c [] = true <-> c = [].
+Proof.
+  intros c. unfold path_ok_b. cbn [chain_b forallb]. rewrite andb_true_r. rewrite Nat.eqb_eq.
+  destruct c; cbn [length]; split; intros; auto; try lia; discriminate.
 Qed.
 
 End Cfg.
